@@ -130,8 +130,15 @@ func synth(r *rand.Rand, base []byte) (delta []byte, shape string, segs []seg) {
 	}
 	var pieces []piece
 	nops := []int{0, 1, 1, 1, 2, 2, 3, 4, 6, 12}[r.Intn(10)]
+	wantValid := r.Intn(2) == 0 // half of the deltas are built from valid parts only (encodings may still be non-canonical)
 	for i := 0; i < nops; i++ {
 		k := r.Intn(20)
+		if wantValid && k >= 8 && k < 13 {
+			k = 13 + r.Intn(7)
+		}
+		if wantValid && n == 0 {
+			k = 13
+		}
 		switch {
 		case k < 6 && n > 0: // valid copy
 			off := uint64(r.Int63n(int64(n)))
@@ -207,7 +214,11 @@ func synth(r *rand.Rand, base []byte) (delta []byte, shape string, segs []seg) {
 	// headers
 	srcKind, tgtKind := "ok", "ok"
 	srcB := leb(n)
-	switch r.Intn(24) {
+	hk := r.Intn(24)
+	if wantValid {
+		hk = []int{0, 1, 2, 0, 23, 23, 23, 23, 23, 23, 23, 23, 23, 23, 23, 23, 23, 23, 23, 23, 23, 23, 23, 23}[r.Intn(24)]
+	}
+	switch hk {
 	case 0:
 		srcKind, srcB = "pad1", lebPadded(n, len(srcB)+1)
 	case 1:
@@ -230,7 +241,11 @@ func synth(r *rand.Rand, base []byte) (delta []byte, shape string, segs []seg) {
 		srcKind, srcB = "overflow64", []byte{0xff, 0xff, 0xff, 0xff, 0xff, 0xff, 0xff, 0xff, 0xff, 0x7f}
 	}
 	tgtB := leb(produced)
-	switch r.Intn(24) {
+	hk = r.Intn(24)
+	if wantValid {
+		hk = []int{0, 1, 8, 0, 23, 23, 23, 23, 23, 23, 23, 23, 23, 23, 23, 23, 23, 23, 23, 23, 23, 23, 23, 23}[r.Intn(24)]
+	}
+	switch hk {
 	case 0:
 		tgtKind, tgtB = "pad1", lebPadded(produced, len(tgtB)+1)
 	case 1:
